@@ -16,7 +16,7 @@ ASSUMPTIONS = ["registries are the ones scale-info derives from replay/src/corpu
 BOUNDS = {"quick": {"corpus registries": "all", "settings variants": 4, "retargeted fields per registry": "each field, <= 6 alternative targets", "unfolding depth": "min(N+2, 8)"},
           "thorough": {"corpus registries": "all", "settings variants": 12, "retargeted fields per registry": "each field, all admissible targets; pairs of fields in the small registries", "unfolding depth": "min(N+2, 8)"}}
 OUTSIDE = ["registries beyond the corpus-derived families", "real chain metadata (used concretely only)", "rustc / codec derive are not run"]
-SKIP = {"duration", "phantom_field", "boxed_param", "empty_enum"}
+SKIP = {"boxed_param", "empty_enum"}
 
 def settings_variants(tier):
     base = [STD,
